@@ -799,7 +799,7 @@ def grad_sort(ans, x, axis=-1, kind="quicksort", order=None):
     if len(x.shape) > 1:
         raise NotImplementedError("Gradient of sort not implemented for multi-dimensional arrays.")
     sort_perm = anp.argsort(x, axis, kind, order)
-    return lambda g: unpermuter(g, sort_perm)
+    return lambda g: anp.reshape(unpermuter(g, sort_perm), anp.shape(x))
 
 
 defvjp(anp.sort, grad_sort)
@@ -812,7 +812,7 @@ def grad_partition(ans, x, kth, axis=-1, kind="introselect", order=None):
     if len(x.shape) > 1:
         raise NotImplementedError("Gradient of partition not implemented for multi-dimensional arrays.")
     partition_perm = anp.argpartition(x, kth, axis, kind, order)
-    return lambda g: unpermuter(g, partition_perm)
+    return lambda g: anp.reshape(unpermuter(g, partition_perm), anp.shape(x))
 
 
 defvjp(anp.partition, grad_partition)
